@@ -17,6 +17,10 @@ TEXT_FAULTS = ('empty', 'comments', 'truncated', 'lexerr', 'synerr', 'unresolved
 # faults that make the *whole file* unusable before any module is registered
 OPTION_NAMES = ('noDeps', 'rebuild', 'dryRun', 'genTexts', 'ignoreErrors', 'writeMibs')
 
+# SMIv1 base modules and a symbol pysmi rewrites to its SMIv2 home (so nothing stays imported from them)
+V1_BASE = {'RFC1155-SMI': 'enterprises, Counter', 'RFC-1212': 'OBJECT-TYPE', 'RFC-1215': 'TRAP-TYPE',
+           'RFC1065-SMI': 'mgmt'}
+
 MODNAMES = ['AA-MIB', 'BB-MIB', 'CC-MIB', 'DD-MIB', 'EE-MIB', 'FF-MIB', 'GG-MIB', 'HH-MIB']
 
 
@@ -29,8 +33,15 @@ def module_text(mod, imports, src, variant='ok', tag_arc=1, extra_modules=()):
     arc = MODNAMES.index(mod) if mod in MODNAMES else 77
     head = '-- src=%s mod=%s\n' % (src, mod)
     imp = ''
-    if imports:
-        imp = 'IMPORTS ' + ' '.join('dep%d FROM %s' % (i, m) for i, m in enumerate(imports)) + ';\n'
+    v1 = [m for m in imports if m in V1_BASE]
+    imports = [m for m in imports if m not in V1_BASE]
+    items = ['dep%d FROM %s' % (i, m) for i, m in enumerate(imports)] + \
+        ['%s FROM %s' % (V1_BASE[m], m) for m in v1]
+    if variant in ('ghost', 'ghostdefval'):
+        # a symbol its (existing or missing) exporter lacks
+        items.insert(0, 'ghostSym FROM %s' % (imports[0] if imports else 'SNMPv2-SMI'))
+    if items:
+        imp = 'IMPORTS ' + ' '.join(items) + ';\n'
     node = '%s OBJECT IDENTIFIER ::= { 1 3 6 1 4 1 99999 %d %d }\n' % (node_name(mod), tag_arc, arc)
     body = '%s DEFINITIONS ::= BEGIN\n%s%s' % (mod, imp, node)
     if variant == 'ok':
@@ -51,17 +62,15 @@ def module_text(mod, imports, src, variant='ok', tag_arc=1, extra_modules=()):
         text = head + body + node + 'END\n'
     elif variant == 'ghost':
         # resolvable only by the code generator: parent imported from a module lacking it
-        tgt = imports[0] if imports else 'SNMPv2-SMI'
-        if not imports:
-            imp = 'IMPORTS ghostSym FROM %s;\n' % tgt
-        else:
-            imp = imp.replace('dep0 FROM', 'dep0, ghostSym FROM', 1)
-        body = '%s DEFINITIONS ::= BEGIN\n%s%s' % (mod, imp, node)
         text = head + body + 'spooky OBJECT IDENTIFIER ::= { ghostSym 1 }\nEND\n'
+    elif variant == 'ghostdefval':
+        # an OID valued DEFVAL naming a symbol its (existing or missing) exporter lacks
+        text = head + body + ('haunted OBJECT-TYPE SYNTAX OBJECT IDENTIFIER MAX-ACCESS read-only STATUS current '
+                              'DESCRIPTION "x" DEFVAL { ghostSym } ::= { %s 9 }\nEND\n' % node_name(mod))
     else:
         raise ValueError(variant)
-    for em, eimps in extra_modules:
-        text += module_text(em, eimps, src, 'ok', tag_arc)
+    for em in extra_modules:
+        text += module_text(em[0], em[1], src, em[2] if len(em) > 2 else 'ok', tag_arc)
     return text
 
 
@@ -112,14 +121,14 @@ def source_tables(scn):
             if isinstance(outcome, (list, tuple)) and outcome[0] == 'error':
                 t[fname] = ('error', outcome[1])
                 continue
-            extra = [(m, scn['graph'].get(m, [])) for m in mods[1:]]
+            extra = [(m, scn['graph'].get(m, []), scn.get('extra_variant', {}).get(m, 'ok')) for m in mods[1:]]
             t[fname] = module_text(lead, scn['graph'].get(lead, []), 's%d' % si, outcome,
                                    tag_arc=si + 1, extra_modules=extra)
         tables.append(t)
     return tables
 
 
-def execute(scn, codegen='json', extra_parser=None):
+def execute(scn, codegen='json', extra_parser=None, around=None):
     """Run the real compiler; returns dict(result|exception, trace, components)."""
     from pysmi.compiler import MibCompiler
     from pysmi.searcher.stub import StubSearcher
@@ -133,11 +142,14 @@ def execute(scn, codegen='json', extra_parser=None):
     wr = doubles.WriterD(tr, scn['writer'])
     comp = MibCompiler(parser, cg, wr)
     srcs = [doubles.SourceD(tr, 's%d' % i, t) for i, t in enumerate(source_tables(scn))]
-    srcs.append(doubles.SourceD(tr, 'base', dict((b, base_text(b)) for b in BASE)))
+    base_tab = dict((b, base_text(b)) for b in BASE)
+    for b in scn.get('base_extra', []):
+        base_tab[b] = base_text(b)
+    srcs.append(doubles.SourceD(tr, 'base', base_tab))
     comp.addSources(*srcs)
     searchers = [doubles.SearcherD(tr, 'q%d' % i, s['table'], stub=s.get('stub', False))
                  for i, s in enumerate(scn['searchers'])]
-    searchers.append(StubSearcher(*BASE))
+    searchers.append(StubSearcher(*(BASE + tuple(V1_BASE))))
     comp.addSearchers(*searchers)
     brs = []
     for i, b in enumerate(scn['borrowers']):
@@ -147,8 +159,10 @@ def execute(scn, codegen='json', extra_parser=None):
         brs.append(cls(rd, genTexts=b['genTexts']))
     comp.addBorrowers(*brs)
     out = {'trace': tr, 'parser': parser, 'codegen': cg, 'writer': wr, 'sources': srcs}
+    def call():
+        return comp.compile(*scn['requested'], **scn['options'])
     try:
-        out['result'] = comp.compile(*scn['requested'], **scn['options'])
+        out['result'] = around(call) if around else call()
     except BaseException as exc:  # noqa - judged by I1
         out['exception'] = exc
     return out
@@ -157,7 +171,7 @@ def execute(scn, codegen='json', extra_parser=None):
 # ------------------------------------------------------------------------------ model
 
 def text_ok(outcome):
-    return outcome in ('ok', 'ghost')
+    return outcome in ('ok', 'ghost', 'ghostdefval')
 
 
 def model(scn):
@@ -178,8 +192,11 @@ def model(scn):
         if n in done or n in parsed:
             continue
         done.add(n)
-        if n in BASE:
+        if n in BASE or (n in V1_BASE and n in scn.get('base_extra', [])):
             parsed[n] = ('base', n)
+            continue
+        if n in V1_BASE:
+            missing.add(n)
             continue
         delivered = None
         errs = []
@@ -233,7 +250,7 @@ def model(scn):
             a = s['table'].get(m, 'absent')
             if a == 'fresh' and (not opts.get('rebuild') or s.get('stub')):
                 return True
-        return m in BASE
+        return m in BASE or m in V1_BASE
 
     status = {}
     to_gen = []
@@ -253,7 +270,7 @@ def model(scn):
             o = src.get(m, src.get(parsed[m][1], 'ok'))
         if m in scn['codegen_script']:
             failed[m] = 'codegen'
-        elif o == 'ghost':
+        elif o in ('ghost', 'ghostdefval'):
             failed[m] = 'codegen-semantic'
         else:
             built[m] = 'compiled'
@@ -520,7 +537,7 @@ def check_fetching(scn, run, V):
             continue
         seen.add(n)
         holders = [i for i in range(nsrc) if n in tables[i]]
-        if n in BASE:
+        if n in BASE or n in V1_BASE:
             want.add(n)
             continue
         if not holders:
@@ -553,7 +570,8 @@ def check_fetching(scn, run, V):
         exp_seq = []
         for s in order:
             exp_seq.append(s)
-            holds = (name in BASE) if s == 'base' else (name in tables[int(s[1:])])
+            holds = (name in BASE or name in scn.get('base_extra', [])) if s == 'base' \
+                else (name in tables[int(s[1:])])
             if holds:
                 break
         if seq != exp_seq:
@@ -575,7 +593,7 @@ def check_fetching(scn, run, V):
         if parsed_texts.count(text) != 1:
             V('parse_count', 'text of %s from %s handed to the parser %d times' % (
                 name, src, parsed_texts.count(text)))
-        if name in BASE:
+        if name in BASE or name in V1_BASE:
             continue
         first = [i for i in range(nsrc) if name in tables[i]][0]
         if text != tables[first][name]:
